@@ -197,7 +197,7 @@ static Db* apply(const Value& c, Db* db)
   if (op == "addColumnsByConstant")
   {
     double val = c.at("val").i() + 10 * (db->getUIDMaxNumber() + 1);
-    db->addColumnsByConstant(c.at("nadd").i(), val, c.at("radix").s(), eloc(c.at("t").s()), c.at("r").i());
+    db->addColumnsByConstant(c.at("nadd").i(), val, unchars(c.at("radix")), eloc(c.at("t").s()), c.at("r").i());
   }
   else if (op == "deleteColumnByUID") db->deleteColumnByUID(c.at("uid").i());
   else if (op == "deleteColumnByColIdx") db->deleteColumnByColIdx(c.at("col").i());
